@@ -20,6 +20,7 @@ def run(c, facts, tier):
     from .. import report as _rep
 
     _rep.require(c, facts, "c02", "C11.key", "requests", "each name/path test asks for the matcher of its own pattern and case-sensitivity", lambda o: o["rule"] == "C02.match" and "matcher(pattern, ci=" in o["instance"], "which (pattern, case flag) request a test sends to the manager is decided by the C02.match rows of the test table")
+    _rep.require(c, facts, "c02", "C11.key", "printer requests", "each printing action asks for the printer of its own destination and terminator", lambda o: o["rule"] == "C02.action" and " uses printer " in o["instance"], "which (destination, terminator) request an action sends to the manager is decided by the C02.action rows; a request for another action's resource would make two different requests share it")
     c.exhaustive = True
     npaths = 0
     for M in codegen.MANAGERS:
